@@ -29,6 +29,33 @@ def _ir():
     return ir
 
 
+_LOCKED_CLS = None
+
+
+def locked_tensor():
+    """A TensorProtocol implementation whose `name` cannot be assigned (read-only property): renaming a
+    value backed by it raises inside `Value.name = ...` at the point where the tensor is renamed."""
+    global _LOCKED_CLS
+    import numpy as np
+
+    ir = _ir()
+    if _LOCKED_CLS is None:
+
+        class LockedTensor(ir.Tensor):
+            __slots__ = ()
+
+            @property
+            def name(self):
+                return self._name
+
+            @name.setter
+            def name(self, value):
+                raise AttributeError("this tensor's name is read-only")
+
+        _LOCKED_CLS = LockedTensor
+    return _LOCKED_CLS(np.array([1.0], dtype=np.float32))
+
+
 # --------------------------------------------------------------------------- real world
 
 
@@ -46,6 +73,7 @@ class Real:
         self.tid: dict[int, int] = {}
         self.attr_graphs: set[int] = set()  # graph ids already used as a node attribute
         self.funcs: dict[int, Any] = {}  # graph id -> ir.Function wrapping it (created on demand)
+        self.locked: set[int] = set()  # ids of const tensors that refuse renaming
 
     # ---- registries
     def reg_val(self, v) -> int:
@@ -68,6 +96,10 @@ class Real:
 
     def V(self, i):
         return None if i is None else self.vals[i]
+
+    def is_locked(self, i: int) -> bool:
+        cv = self.vals[i].const_value
+        return cv is not None and id(cv) in self.locked
 
     def GF(self, op: dict):
         """The graph an operation addresses, or (when the call is spelled through a function) the
@@ -107,7 +139,9 @@ class Real:
         elif k == "setConst":
             import numpy as np
 
-            t = ir.Tensor(np.array([1.0], dtype=np.float32))
+            t = locked_tensor() if op.get("locked") else ir.Tensor(np.array([1.0], dtype=np.float32))
+            if op.get("locked"):
+                self.locked.add(id(t))
             self.tid[id(t)] = len(self.tensors)
             self.tensors.append(t)
             self.vals[op["v"]].const_value = t
@@ -537,6 +571,70 @@ class Gen:
 
     def __init__(self, rng: random.Random, real: Real, p_invalid: float = 0.3):
         self.rng, self.real, self.p_invalid = rng, real, p_invalid
+        self.focus: dict | None = None  # after a rejected call: keep working on the same container and value
+
+    def after(self, op: dict, outcome: str) -> None:
+        """Told the outcome of every call: a rejected call on a collection makes the next 3-6 calls reuse the
+        same collection and the same value / node (delayed effects of a half-applied rejection show up there)."""
+        if outcome != "raised" or self.rng.random() > 0.85:
+            return
+        k = op["op"]
+        n = self.rng.randint(3, 6)
+        if k == "io":
+            vs = ([op["v"]] if "v" in op else []) + list(op.get("vs", []))
+            v = self.rng.choice(vs) if vs else self.any_val()
+            self.focus = {"kind": "io", "g": op["g"], "io": op["kind"], "v": v, "left": n}
+        elif k == "init":
+            vs = ([op["v"]] if "v" in op else []) + [p[1] for p in op.get("kvs", [])]
+            v = self.rng.choice(vs) if vs else self.any_val()
+            self.focus = {"kind": "init", "g": op["g"], "v": v, "left": n}
+        elif k in ("append", "extend", "insertAfter", "insertBefore", "remove"):
+            ns = ([op["n"]] if "n" in op else []) + list(op.get("ns", []))
+            self.focus = {"kind": "node", "g": op["g"], "n": self.rng.choice(ns), "left": n}
+
+    def focused(self) -> dict:
+        f, rng, real = self.focus, self.rng, self.real
+        f["left"] -= 1
+        if f["left"] <= 0:
+            self.focus = None
+        g = f["g"]
+        if f["kind"] == "io":
+            v, kind = f["v"], f["io"]
+            lst = real.graphs[g].inputs if kind == "inp" else real.graphs[g].outputs
+            m = rng.choice(["append", "append", "extend", "insert", "pop", "remove", "delItem", "setItem"])
+            op = {"op": "io", "g": g, "kind": kind, "m": m}
+            if m in ("append", "remove"):
+                op["v"] = v
+            elif m == "extend":
+                op["vs"] = [v, v]
+            elif m in ("insert", "setItem"):
+                op.update(i=self.small_int(len(lst)), v=v)
+            else:
+                op["i"] = rng.choice([-1, 0, -1, self.small_int(len(lst))])
+            return op
+        if f["kind"] == "init":
+            v = f["v"]
+            nm = real.vals[v].name
+            m = rng.choice(["setItem", "add", "register", "pop", "delItem", "setdefault", "popitem"])
+            op = {"op": "init", "g": g, "m": m}
+            if m in ("setItem", "setdefault"):
+                op.update(key=nm if nm else self.key(g), v=v)
+            elif m in ("add", "register"):
+                op["v"] = v
+            elif m in ("pop", "delItem"):
+                op["key"] = nm if nm else self.key(g)
+            return op
+        n = f["n"]
+        m = rng.choice(["append", "extend", "remove", "remove", "insertAfter", "insertBefore"])
+        if m == "append":
+            return {"op": "append", "g": g, "n": n}
+        if m == "extend":
+            return {"op": "extend", "g": g, "ns": [n, n]}
+        if m == "remove":
+            return {"op": "remove", "g": g, "ns": [n], "safe": rng.random() < 0.4}
+        inside = [real.nid[id(x)] for x in real.graphs[g]]
+        a = rng.choice(inside) if inside else n
+        return {"op": m, "g": g, "a": a, "ns": [n]}
 
     # -- pickers
     def val(self, pred=None):
@@ -606,6 +704,8 @@ class Gen:
         nv, nn, ng = len(real.vals), len(real.nodes), len(real.graphs)
         if nv == 0:
             return self.new_value()
+        if self.focus is not None and rng.random() < 0.85:
+            return self.focused()
         w = [
             (self.new_value, 3 if nv < MAX_VALUES else 0),
             (self.set_const, 1),
@@ -635,7 +735,13 @@ class Gen:
         return {"op": "newValue", "name": self.rng.choice(NAME_POOL + [None, None, None])}
 
     def set_const(self):
-        return {"op": "setConst", "v": self.any_val()}
+        v = self.any_val()
+        op = {"op": "setConst", "v": v}
+        # a tensor that refuses renaming is only attached to a value that already has a non-empty name, so that
+        # the implicit naming paths (name authority, `initializers[key] = unnamed`) never meet it (see ASSUMPTIONS)
+        if self.real.vals[v].name and self.rng.random() < 0.35:
+            op["locked"] = True
+        return op
 
     def new_node(self):
         rng, real = self.rng, self.real
@@ -725,8 +831,12 @@ class Gen:
 
     def set_name(self):
         v = self.any_val()
-        if self.rng.random() < 0.5:
+        r = self.rng.random()
+        if r < 0.5:
             v = self.val(lambda x: x.is_initializer()) or v
+        elif r < 0.65:
+            locked = [i for i in range(len(self.real.vals)) if self.real.is_locked(i)]
+            v = self.rng.choice(locked) if locked else v
         keys = [k for g in self.real.graphs for k in g.initializers.keys()]
         return {"op": "setName", "v": v, "s": self.rng.choice(NAME_POOL + keys + [None])}
 
@@ -757,7 +867,15 @@ class Gen:
             op["i"] = self.small_int(n)
         elif m == "remove":
             inside = [real.vid[id(x)] for x in lst]
-            op["v"] = rng.choice(inside) if inside and rng.random() < 0.75 else self.any_val()
+            G = real.graphs[g]
+            other_role = [i for i, x in enumerate(real.vals) if x._graph is G and not any(y is x for y in lst)]
+            r = rng.random()
+            if inside and r < 0.65:
+                op["v"] = rng.choice(inside)
+            elif other_role and r < 0.9:
+                op["v"] = rng.choice(other_role)  # owned by this graph in another role, not in this list
+            else:
+                op["v"] = self.any_val()
         elif m == "setItem":
             op.update(i=self.small_int(n), v=one())
         elif m in ("setSlice", "delSlice"):
@@ -868,6 +986,15 @@ class Gen:
             cur = [real.vals[v].name for v in vs]
             if all(isinstance(c, str) for c in cur):
                 names = cur[1:] + cur[:1]
+        by_graph = [[real.vid[id(v)] for v in g.initializers.values()] for g in real.graphs if len(g.initializers)]
+        if len(by_graph) >= 2 and rng.random() < 0.35:
+            # initializers of several graphs in one call; the rejected rename (if any) belongs to a later graph
+            vs = [rng.choice(ids) for ids in by_graph]
+            names = [rng.choice(["p", "q", "r"]) + str(i) for i in range(len(vs))]
+            if rng.random() < 0.7:
+                others = [k_ for k_ in real.graphs[real.gid[id(real.vals[vs[-1]]._graph)]].initializers.keys()
+                          if k_ != real.vals[vs[-1]].name]
+                names[-1] = rng.choice(others + [""])
         op = {"op": "renameValues", "vs": vs, "names": names}
         if len(vs) == 1 and len(names) == 1 and rng.random() < 0.5:
             op["single"] = True
@@ -885,6 +1012,11 @@ class Gen:
             x = self.node() if self.invalid() else self.addable_node(g)
             new_nodes.append(self.node() if x is None else x)
         old_vals = [real.vid[id(o)] for n in old_nodes for o in real.nodes[n].outputs][:2] or [self.any_val()]
+        old_vals = [v for v in old_vals if not real.is_locked(v)] or [
+            self.val(lambda x: x.const_value is None) or 0
+        ]
+        if any(real.is_locked(v) for v in old_vals):
+            return self.new_value()
         new_vals = [real.vid[id(o)] for n in new_nodes for o in real.nodes[n].outputs][: len(old_vals)]
         while len(new_vals) < len(old_vals) and rng.random() < 0.8:
             new_vals.append(self.any_val())
@@ -958,7 +1090,10 @@ def shape_of(op: dict, real: Real) -> str:
     elif k == "rauwMany":
         return "multi" if len(op["vs"]) > 1 else "single"
     elif k == "renameValues":
-        return "multi" if len(op["vs"]) > 1 else "single"
+        lk = any(real.is_locked(v) for v in op["vs"])
+        return ("multi" if len(op["vs"]) > 1 else "single") + ("+locked-tensor" if lk else "")
+    elif k == "setName":
+        return "locked-tensor" if real.is_locked(op["v"]) else "plain"
     return "+".join(tags) or "plain"
 
 
@@ -1043,6 +1178,8 @@ def run_one(rng: random.Random, length: int, part: Part, fixed_ops: list | None 
         before = deep_snapshot(real)
         pos = fail_pos(op, real)
         o, kind, mop = real.apply(op)
+        if fixed_ops is None:
+            gen.after(op, o)
         part.count(f"op={label}:{o}")
         if o == "raised" and pos:
             part.count(f"raisedAt={label}:k={pos}")
@@ -1222,6 +1359,7 @@ def small_alphabet(reduced: bool = False) -> list[dict]:
     init(0, "popitem")
     init(0, "update", kvs=[["c", 2], ["d", 2]])
     init(1, "setItem", key="b", v=1)
+    init(1, "setItem", key="c", v=2)
     if not reduced:
         init(0, "setItem", key="b", v=1)
         init(0, "pop", key="zz")
@@ -1247,6 +1385,7 @@ def small_alphabet(reduced: bool = False) -> list[dict]:
         {"op": "remove", "g": 0, "ns": [0, 1], "safe": True},
         {"op": "remove", "g": 1, "ns": [0], "safe": False},
         {"op": "sort", "g": 0},
+        {"op": "setConst", "v": 1, "locked": True},
         {"op": "append", "g": 1, "n": 1, "via": "function"},
         {"op": "io", "g": 1, "kind": "out", "m": "append", "v": 5, "via": "function"},
         {"op": "newNode", "opType": "Id", "name": None, "inputs": [3], "numOutputs": None, "outputs": [2], "graph": None},
@@ -1258,6 +1397,7 @@ def small_alphabet(reduced: bool = False) -> list[dict]:
         {"op": "renameValues", "vs": [1, 2], "names": ["c", "b"]},
         {"op": "renameValues", "vs": [1, 0], "names": ["a", "b"]},
         {"op": "renameValues", "vs": [1, 2], "names": ["", "b"]},
+        {"op": "renameValues", "vs": [1, 2], "names": ["q", ""]},
         {"op": "replaceNodesAndValues", "g": 0, "ip": 0, "oldNodes": [1], "newNodes": [2], "oldVals": [4], "newVals": [5]},
     ]
     return A
@@ -1289,6 +1429,56 @@ def run_exhaustive(ctx, prop: str, depth: int, reduced: bool, procs: int = 16) -
     return (
         f"all {len(tails)} histories made of the fixed 9-call prelude (6 values, 3 nodes, 2 graphs) followed by "
         f"<= {depth} calls from a fixed alphabet of {len(A)} calls (every mutator, valid and invalid arguments)"
+    )
+
+
+def after_reject_tails(depth: int) -> list[list[dict]]:
+    """A rejected call on a tracked list followed by every sequence of <= depth calls on the SAME list with
+    the SAME value (delayed effects of a rejection that was not clean: a leaked reference count, a flag set
+    too early, ... only show when the value is listed again, twice, and one listing is removed)."""
+    import itertools
+
+    tails = []
+    # PRELUDE + v2 made an input of g1, so that v2 is foreign to g0
+    pre = [{"op": "io", "g": 1, "kind": "inp", "m": "append", "v": 2}]
+    for kind, x in (("out", 0), ("inp", 1)):  # x: owned by g0 in another role, not in that list
+
+        def io(m, **kw):
+            return {"op": "io", "g": 0, "kind": kind, "m": m, **kw}
+
+        rejected = [
+            io("remove", v=x),
+            io("pop", i=7),
+            io("setItem", i=7, v=x),
+            io("extend", vs=[x, 2]),
+            io("setSlice", start=None, stop=None, step=2, vs=[x, x]),
+            io("insert", i=0, v=2),
+        ]
+        focus = [
+            io("append", v=x),
+            io("extend", vs=[x, x]),
+            io("pop", i=-1),
+            io("remove", v=x),
+            io("delItem", i=0),
+            io("setItem", i=0, v=x),
+        ]
+        for r in rejected:
+            for d in range(1, depth + 1):
+                for t in itertools.product(focus, repeat=d):
+                    tails.append(pre + [r] + list(t))
+    return tails
+
+
+def run_after_reject(ctx, prop: str, depth: int = 3, procs: int = 16) -> str:
+    tails = after_reject_tails(depth)
+    chunk = max(1, len(tails) // (procs * 4))
+    jobs = [tails[i : i + chunk] for i in range(0, len(tails), chunk)]
+    for part in pmap(_exh_worker, jobs, procs):
+        split_failures(part, prop)
+        ctx.merge(part)
+    return (
+        f"all {len(tails)} histories: prelude, one of 6 rejected calls on g.inputs / g.outputs, then <= {depth} calls "
+        "from 6 mutators of the same list applied to the same value"
     )
 
 
